@@ -40,6 +40,8 @@ type c12Params struct {
 	Role  string `json:"role,omitempty"` // role of the REAL endpoint (alert, early-app, cancel)
 	// early-app / cancel: after how many of its handshake messages the scripted peer deviates / stalls
 	Step int `json:"step,omitempty"`
+	// early-app: Empty - the early application-data record has no payload
+	Empty bool `json:"empty,omitempty"`
 	// cancel: Second - another task has started the handshake through Read and is blocked in it when
 	// HandshakeContext is called (and then cancelled)
 	Second bool `json:"second,omitempty"`
@@ -50,7 +52,7 @@ type c12Params struct {
 func (c12) ID() string    { return "C12" }
 func (c12) Level() string { return "exploration" }
 func (c12) Rule() string {
-	return "seeded API histories on the stream stack, five families: (cut) a writer sends N records and then closes / half-closes / does nothing while the transport of that direction ends before or inside a drawn record at a drawn byte offset (thorough: every offset of small records), the reader keeps calling Read after the end; (alert) after a clean handshake a scripted peer sends protected alerts of every level and a range of descriptions, single or in runs; (early-app) a scripted peer sends application data after k handshake messages; (cancel) HandshakeContext is cancelled while the peer stalls after k handshake messages - in a third of the cases another task had started the handshake through Read and is blocked in it; (hs-timeout) the connection deadline expires during the handshake because the peer is slow, is cleared, and the peer's messages arrive late; (api) sequences of Close / CloseWrite / Write / Read / Handshake / renewing the deadlines on one end, incl. before the handshake. Oracle: a small state machine per end - delivered bytes are a prefix of what the peer wrote made of whole records; io.EOF only after everything written was delivered and only on close_notify or a cut exactly on a record boundary; a cut inside a record gives io.ErrUnexpectedEOF; every later Read repeats the failure and delivers nothing; after Close every call fails and a second Close reports net.ErrClosed; Write after CloseWrite fails; a failed handshake stays failed; early application data is never delivered; a cancelled handshake returns the context's error. distinct = distinct parameter vectors; non-trivial = the event under test happened"
+	return "seeded API histories on the stream stack, five families: (cut) a writer sends N records and then closes / half-closes / does nothing while the transport of that direction ends before or inside a drawn record at a drawn byte offset (thorough: every offset of small records), the reader keeps calling Read after the end; (alert) after a clean handshake a scripted peer sends protected alerts of every level and a range of descriptions, single or in runs; (early-app) a scripted peer sends application data - with or without payload - after k handshake messages, up to between its ChangeCipherSpec and Finished; (cancel) HandshakeContext is cancelled while the peer stalls after k handshake messages - in a third of the cases another task had started the handshake through Read and is blocked in it; (hs-timeout) the connection deadline expires during the handshake because the peer is slow, is cleared, and the peer's messages arrive late; (api) sequences of Close / CloseWrite / Write / Read / Handshake / renewing the deadlines on one end, incl. before the handshake. Oracle: a small state machine per end - delivered bytes are a prefix of what the peer wrote made of whole records; io.EOF only after everything written was delivered and only on close_notify or a cut exactly on a record boundary; a cut inside a record gives io.ErrUnexpectedEOF; every later Read repeats the failure and delivers nothing; after Close every call fails and a second Close reports net.ErrClosed; Write after CloseWrite fails; a failed handshake stays failed; early application data is never delivered; a cancelled handshake returns the context's error. distinct = distinct parameter vectors; non-trivial = the event under test happened"
 }
 func (c12) Components() (real, stub []string) {
 	return []string{"tlcp.Conn (instrumented): Read/Write/Close/CloseWrite/HandshakeContext, alert handling, error latching", "the handshake-context interrupter goroutine (real, unmanaged; its transport Close is awaited as an external event)"},
@@ -100,7 +102,8 @@ func drawC12(src *vs.Src) *c12Params {
 	case 6:
 		p.Mode = "early-app"
 		p.Role = pickStr(src, []string{"client", "server"})
-		p.Step = src.Intn(5)
+		p.Step = src.Intn(7)
+		p.Empty = src.Bool(1, 2)
 	case 7:
 		p.Mode = "cancel"
 		p.Role = pickStr(src, []string{"client", "server"})
@@ -433,7 +436,14 @@ func c12Scripted(c *Case, src *vs.Src, p *c12Params, r *Result) {
 				}
 				pr.Run(o, []string{"rAPP"})
 			} else if p.Mode == "early-app" {
-				pr.SendApp([]byte("too early"))
+				if p.Empty {
+					pr.SendApp(nil)
+					// an empty record delivers nothing by itself: what follows it must not count as a completed handshake
+					pr.Run(o, rest)
+					pr.SendApp([]byte("after the empty early record"))
+				} else {
+					pr.SendApp([]byte("too early"))
+				}
 				pr.Run(o, []string{"rAPP"})
 			} else {
 				stalled = true
